@@ -205,25 +205,23 @@ Proof.
 Qed.
 
 (* ---- panics: a panic raised by user code (PFail KPanic) can no longer be replaced by a later skip of a
-   cleanup function (the skip is noted, the panic stays in flight), so the hypothesis [k <> KPanic] can go -
-   with one exception: when a cleanup function of the inner T of a Custom generator function runs out of data
-   (an internal XInvalid), that exception replaces the panic of the generator function and the attempt is
-   rejected (custom_handler); such a run is flagged [dirty], so panics are covered for runs that are not flagged.
+   cleanup function (the skip is noted, the panic stays in flight), nor by a generator that runs out of data inside a
+   cleanup function of the inner T of a Custom generator function (that is noted on the inner T as well, note_ood,
+   and only decides the fate of an attempt whose function returned), so the hypothesis [k <> KPanic] can go.
    [signal KPanic] only logs the event and the throw follows in run_p, so this is a direct induction over the
    interpreter (the primitives of Prim.v are taken from the closure principle). ---- *)
 Definition bad (e : exn) : Prop := match e with XInvalid _ => False | _ => True end.
 Definition bad_res {A} (r : result A) : Prop := match r with Err e => bad e | Ok _ => False end.
 Definition psig (t : list uev) : Prop := exists mm id, In (USignal KPanic mm id) t.
 (* a panic signal in the trace: the computation ends with a failure, a panic or the fuel artefact *)
-Definition PAN {A} (m : M A) : Prop :=
-  forall s, dirty (w (m s)) = false -> psig (tr (w (m s))) -> bad_res (res (m s)).
+Definition PAN {A} (m : M A) : Prop := forall s, psig (tr (w (m s))) -> bad_res (res (m s)).
 
 Lemma psig_app a b : psig (a ++ b) -> psig a \/ psig b.
 Proof. intros (mm & id & H). apply in_app_or in H. destruct H; [left|right]; exists mm, id; assumption. Qed.
 Lemma psig_nil : ~ psig [].
 Proof. intros (mm & id & []). Qed.
 Lemma pan_quiet A (m : M A) : (forall s, ~ psig (tr (w (m s)))) -> PAN m.
-Proof. intros H s _ Hp. destruct (H s Hp). Qed.
+Proof. intros H s Hp. destruct (H s Hp). Qed.
 Ltac in_disc H := cbn in H; repeat (destruct H as [H|H]; [discriminate H|]); destruct H.
 Ltac pan_still := apply pan_quiet; intros s0; cbn; apply psig_nil.
 
@@ -258,25 +256,16 @@ Lemma bind_shape A B (m : M A) (f : A -> M B) s :
   end.
 Proof. unfold bind. destruct (res (m s)); split; reflexivity. Qed.
 
-Lemma bind_clean A B (m : M A) (f : A -> M B) s :
-  dirty (w (bind m f s)) = false ->
-  dirty (w (m s)) = false /\ forall a, res (m s) = Ok a -> dirty (w (f a (post (m s)))) = false.
-Proof.
-  unfold bind. destruct (res (m s)) as [a|e]; cbn [w]; intros H.
-  - apply dirty_wapp in H. destruct H as [H1 H2]. split; [exact H1|]. intros a0 E. injection E as <-. exact H2.
-  - split; [exact H|discriminate].
-Qed.
 Lemma pan_bind A B (m : M A) (f : A -> M B) : PAN m -> (forall a, PAN (f a)) -> PAN (bind m f).
 Proof.
-  intros Hm Hf s Hd Hp. pose proof (bind_shape _ _ m f s) as E. specialize (Hm s).
-  apply bind_clean in Hd. destruct Hd as [Hd1 Hd2]. specialize (Hm Hd1).
+  intros Hm Hf s Hp. pose proof (bind_shape _ _ m f s) as E. specialize (Hm s).
   destruct (res (m s)) as [a|e]; destruct E as [E1 E2]; rewrite E1; rewrite E2 in Hp.
-  - apply psig_app in Hp. destruct Hp as [Hp|Hp]; [destruct (Hm Hp)|apply Hf; [exact (Hd2 a eq_refl)|exact Hp]].
+  - apply psig_app in Hp. destruct Hp as [Hp|Hp]; [destruct (Hm Hp)|apply Hf; exact Hp].
   - apply Hm. exact Hp.
 Qed.
 Lemma pan_group_d A sa (m : M (A * bool)) : PAN m -> PAN (group_d sa m).
 Proof.
-  intros Hm s Hd Hp. specialize (Hm s).
+  intros Hm s Hp. specialize (Hm s).
   assert (E : tr (w (group_d sa m s)) = tr (w (m s)) /\
               (forall e, res (m s) = Err e -> res (group_d sa m s) = Err e)).
   { unfold group_d. destruct (res (m s)) as [[a d]|e]; [destruct d|]; cbn; rewrite ?app_nil_r.
@@ -284,38 +273,29 @@ Proof.
     - destruct (wkeep_tr_nf (w (m s))) as [K1 _].
       destruct (rd (w (m s))); cbn; rewrite ?app_nil_r, ?K1; (split; [reflexivity|discriminate]).
     - split; [reflexivity|]. intros e0 H. injection H as ->. reflexivity. }
-  assert (Hd' : dirty (w (m s)) = false).
-  { unfold group_d in Hd. destruct (res (m s)) as [[a d]|e]; [destruct d|].
-    - cbn in Hd. rewrite orb_false_r in Hd. apply orb_false_iff in Hd. destruct Hd as [Hd _].
-      apply orb_false_iff in Hd. destruct Hd as [Hd _]. exact Hd.
-    - destruct (rd (w (m s))) as [|x0 l0]; cbn in Hd; [rewrite orb_false_r in Hd; exact Hd|].
-      unfold wkeep in Hd. destruct (rpd (w (m s))) as [|x1 l1]; cbn in Hd; [discriminate|]. rewrite orb_false_r in Hd. exact Hd.
-    - cbn in Hd. rewrite orb_false_r in Hd. exact Hd. }
-  destruct E as [E1 E2]. rewrite E1 in Hp. specialize (Hm Hd' Hp).
+  destruct E as [E1 E2]. rewrite E1 in Hp. specialize (Hm Hp).
   destruct (res (m s)) as [x|e]; [destruct Hm|]. rewrite (E2 e eq_refl). exact Hm.
 Qed.
 Lemma pan_fresh A (m : M A) : PAN m -> PAN (with_fresh_T m).
 Proof.
-  intros Hm s Hd (mm & id & Hin). unfold with_fresh_T in *. cbn [w tr res dirty] in *.
+  intros Hm s (mm & id & Hin). unfold with_fresh_T in *. cbn [w tr res] in *.
   destruct Hin as [Hin|Hin]; [discriminate|]. apply in_app_or in Hin. destruct Hin as [Hin|[Hin|[]]]; [|discriminate].
-  apply Hm; [exact Hd|]. exists mm, id. exact Hin.
+  apply Hm. exists mm, id. exact Hin.
 Qed.
-(* catching: a handler that keeps a bad outcome bad (in a run that is not flagged) *)
+(* catching: a handler that keeps a bad outcome bad *)
 Lemma pan_try A B (m : M A) (h : result A -> M B) :
-  PAN m -> (forall r, PAN (h r)) -> (forall r s, dirty (w (h r s)) = false -> bad_res r -> bad_res (res (h r s))) -> PAN (try_ m h).
+  PAN m -> (forall r, PAN (h r)) -> (forall r s, bad_res r -> bad_res (res (h r s))) -> PAN (try_ m h).
 Proof.
-  intros Hm Hh Hb s Hd Hp. unfold try_ in *. cbn [res w] in *. apply dirty_wapp in Hd. destruct Hd as [Hd1 Hd2].
-  cbn [tr wapp] in Hp. apply psig_app in Hp. destruct Hp as [Hp|Hp].
-  - apply Hb; [exact Hd2|]. apply Hm; assumption.
-  - apply Hh; assumption.
+  intros Hm Hh Hb s Hp. unfold try_ in *. cbn [res w tr wapp] in *. apply psig_app in Hp. destruct Hp as [Hp|Hp].
+  - apply Hb. apply Hm. exact Hp.
+  - apply Hh. exact Hp.
 Qed.
 Lemma pan_try_w A B (m : M A) (h : result A -> wr -> M B) :
-  PAN m -> (forall r x, PAN (h r x)) -> (forall r x s, dirty (w (h r x s)) = false -> bad_res r -> bad_res (res (h r x s))) -> PAN (try_w m h).
+  PAN m -> (forall r x, PAN (h r x)) -> (forall r x s, bad_res r -> bad_res (res (h r x s))) -> PAN (try_w m h).
 Proof.
-  intros Hm Hh Hb s Hd Hp. unfold try_w in *. cbn [res w] in *. apply dirty_wapp in Hd. destruct Hd as [Hd1 Hd2].
-  cbn [tr wapp] in Hp. apply psig_app in Hp. destruct Hp as [Hp|Hp].
-  - apply Hb; [exact Hd2|]. apply Hm; assumption.
-  - apply Hh; assumption.
+  intros Hm Hh Hb s Hp. unfold try_w in *. cbn [res w tr wapp] in *. apply psig_app in Hp. destruct Hp as [Hp|Hp].
+  - apply Hb. apply Hm. exact Hp.
+  - apply Hh. exact Hp.
 Qed.
 (* user code's panic: the event and the throw together *)
 Lemma pan_fail kind mm id (k : M val) : PAN k ->
@@ -326,13 +306,12 @@ Lemma pan_fail kind mm id (k : M val) : PAN k ->
        | KPanic => throw (XPanic mm (SUser id))
        end).
 Proof.
-  intros Hk s Hd Hp. pose proof (bind_shape _ _ (signal kind mm id)
+  intros Hk s Hp. pose proof (bind_shape _ _ (signal kind mm id)
     (fun _ => match kind with KError => k | KFatal => throw (XStop mm (SUser id)) | KPanic => throw (XPanic mm (SUser id)) end) s) as E.
   assert (Er : res (signal kind mm id s) = Ok tt) by (unfold signal; destruct kind; reflexivity).
-  apply bind_clean in Hd. destruct Hd as [_ Hd]. specialize (Hd tt Er).
   rewrite Er in E. destruct E as [E1 E2]. rewrite E1. rewrite E2 in Hp.
   destruct kind.
-  - apply Hk; [exact Hd|]. apply psig_app in Hp. destruct Hp as [(m0 & i0 & [E|[]])|Hp]; [discriminate|exact Hp].
+  - apply Hk. apply psig_app in Hp. destruct Hp as [(m0 & i0 & [E|[]])|Hp]; [discriminate|exact Hp].
   - exact I.
   - exact I.
 Qed.
@@ -365,77 +344,78 @@ Section PanInterp.
 
   Lemma skip_steps_shape B m (k : M B) s2 :
     res ((_ <- (if internal_msg m then mark_dirty else ret tt) ;; _ <- note_skip m ;; k) s2) = res (k (post (note_skip m s2))) /\
-    tr (w ((_ <- (if internal_msg m then mark_dirty else ret tt) ;; _ <- note_skip m ;; k) s2)) = tr (w (k (post (note_skip m s2)))) /\
-    (dirty (w ((_ <- (if internal_msg m then mark_dirty else ret tt) ;; _ <- note_skip m ;; k) s2)) = false ->
-     dirty (w (k (post (note_skip m s2)))) = false).
-  Proof.
-    destruct (internal_msg m); unfold bind, mark_dirty, ret, note_skip; cbn [res post w tr wapp wnil app dirty orb];
-      (split; [reflexivity|split; [reflexivity|]]); intros H; [discriminate H|exact H].
-  Qed.
+    tr (w ((_ <- (if internal_msg m then mark_dirty else ret tt) ;; _ <- note_skip m ;; k) s2)) = tr (w (k (post (note_skip m s2)))).
+  Proof. destruct (internal_msg m); unfold bind, mark_dirty, ret, note_skip; cbn [res post w tr wapp wnil app]; split; reflexivity. Qed.
+  Lemma ood_steps_shape B m (k : M B) s2 :
+    res ((_ <- mark_dirty ;; _ <- note_ood m ;; k) s2) = res (k (post (note_ood m s2))) /\
+    tr (w ((_ <- mark_dirty ;; _ <- note_ood m ;; k) s2)) = tr (w (k (post (note_ood m s2)))).
+  Proof. unfold bind, mark_dirty, note_ood; cbn [res post w tr wapp wnil app]; split; reflexivity. Qed.
 
-  Lemma bind_err_out A B (m : M A) (f : A -> M B) s e :
-    res (m s) = Err e -> bind m f s = mkOut (Err e) (post (m s)) (w (m s)).
-  Proof. intros H. unfold bind. rewrite H. reflexivity. Qed.
-  Lemma psig_run_app id a b (X : Prop) : psig ([URun id] ++ a ++ b) \/ X -> psig a \/ psig b \/ X.
-  Proof.
-    intros [H|H]; [|right; right; exact H].
-    change ([URun id] ++ ?x) with (URun id :: x) in H. destruct H as (m0 & i0 & [E|Hin]); [discriminate|].
-    apply in_app_or in Hin. destruct Hin as [Hin|Hin]; [left|right; left]; exists m0, i0; exact Hin.
-  Qed.
-
-  (* in a run that is not flagged, T.cleanup reports a panic of a cleanup function (or runs out of fuel); a skip
-     never replaces it.  (A generator that runs out of data inside a cleanup function of a Custom's inner T does
-     replace it - and flags the run.) *)
   Lemma pan_cleanup_loop inner : forall fuel last s,
-    dirty (w (cleanup_loop crun inner fuel last s)) = false ->
     psig (tr (w (cleanup_loop crun inner fuel last s))) \/ (exists e, last = Some e /\ bad e) ->
     cl_bad (res (cleanup_loop crun inner fuel last s)).
   Proof.
-    induction fuel as [|f IH]; intros last s Hd H; cbn [cleanup_loop] in Hd, H |- *; [exact I|].
+    induction fuel as [|f IH]; intros last s H; cbn [cleanup_loop]; [exact I|].
+    cbn [cleanup_loop] in H.
+    pose proof (bind_shape _ _ pop_cleanup (fun c => match c with
+        | None => ret last
+        | Some c => try_ (crun c) (fun r => match r with
+              | Err XFuel => throw XFuel
+              | Err (XInvalid m) =>
+                  if inner && internal_msg m then _ <- mark_dirty ;; _ <- note_ood m ;; cleanup_loop crun inner f last
+                  else _ <- (if internal_msg m then mark_dirty else ret tt) ;; _ <- note_skip m ;; cleanup_loop crun inner f last
+              | Err e => cleanup_loop crun inner f (Some e)
+              | Ok _ => cleanup_loop crun inner f last
+              end)
+        end) s) as E.
     assert (Hpop : (res (pop_cleanup s) = Ok None /\ tr (w (pop_cleanup s)) = []) \/
                    (exists c id, res (pop_cleanup s) = Ok (Some c) /\ tr (w (pop_cleanup s)) = [URun id])).
     { unfold pop_cleanup. destruct (cleanups (ts s)) as [|[id c] rest]; [left; split; reflexivity|].
       destruct (cleaning (ts s)); [right; exists c, id; split; reflexivity|left; split; reflexivity]. }
-    destruct Hpop as [[P1 P2]|(c & id & P1 & P2)];
-      rewrite (bind_ok_out _ _ pop_cleanup _ s _ P1) in Hd, H |- *; cbn [res w] in Hd, H |- *;
-      apply dirty_wapp in Hd; destruct Hd as [_ Hd]; cbn [tr wapp] in H; rewrite P2 in H.
+    destruct Hpop as [[P1 P2]|(c & id & P1 & P2)]; rewrite P1 in E; destruct E as [E1 E2]; rewrite E1; rewrite E2, P2 in H; clear E1 E2.
     - cbn [ret res w tr wnil app] in *. destruct H as [H|(e & -> & He)]; [destruct (psig_nil H)|exact He].
-    - set (s1 := post (pop_cleanup s)) in Hd, H |- *. unfold try_ in Hd, H |- *. cbn [res w] in Hd, H |- *.
-      apply dirty_wapp in Hd. destruct Hd as [Hd1 Hd2]. cbn [tr wapp] in H.
-      assert (Hc : psig (tr (w (crun c s1))) -> bad_res (res (crun c s1))) by (apply Hcrun; exact Hd1).
-      apply psig_run_app in H.
-      destruct (res (crun c s1)) as [v|[m|m st|m st|]].
-      + apply IH; [exact Hd2|]. destruct H as [H|[H|H]]; [destruct (Hc H)|left; exact H|right; exact H].
+    - set (s1 := post (pop_cleanup s)) in H |- *. unfold try_ in H |- *. cbn [res w tr wapp] in H |- *.
+      assert (Hc : psig (tr (w (crun c s1))) -> bad_res (res (crun c s1))) by apply Hcrun.
+      assert (H' : psig (tr (w (crun c s1))) \/
+                   psig (tr (w (match res (crun c s1) with
+                                | Err XFuel => throw XFuel
+                                | Err (XInvalid m) =>
+                                    if inner && internal_msg m then _ <- mark_dirty ;; _ <- note_ood m ;; cleanup_loop crun inner f last
+                                    else _ <- (if internal_msg m then mark_dirty else ret tt) ;; _ <- note_skip m ;; cleanup_loop crun inner f last
+                                | Err e => cleanup_loop crun inner f (Some e)
+                                | Ok _ => cleanup_loop crun inner f last
+                                end (post (crun c s1))))) \/
+                   (exists e, last = Some e /\ bad e)).
+      { destruct H as [H|H]; [|right; right; exact H].
+        change ([URun id] ++ ?x) with (URun id :: x) in H. destruct H as (m0 & i0 & [E|Hin]); [discriminate|].
+        apply in_app_or in Hin. destruct Hin as [Hin|Hin]; [left|right; left]; exists m0, i0; exact Hin. }
+      clear H. destruct (res (crun c s1)) as [v|[m|m st|m st|]].
+      + apply IH. destruct H' as [H|[H|H]]; [destruct (Hc H)|left; exact H|right; exact H].
       + destruct (inner && internal_msg m).
-        * exfalso. rewrite (bind_ok_out _ _ mark_dirty _ _ tt eq_refl) in Hd2. cbn [w] in Hd2.
-          apply dirty_wapp in Hd2. destruct Hd2 as [Hd2 _]. discriminate Hd2.
-        * destruct (skip_steps_shape _ m (cleanup_loop crun inner f last) (post (crun c s1))) as [A [B C]].
-          rewrite A. rewrite B in H. apply IH; [exact (C Hd2)|].
-          destruct H as [H|[H|H]]; [destruct (Hc H)|left; exact H|right; exact H].
-      + apply IH; [exact Hd2|]. right. exists (XStop m st). split; [reflexivity|exact I].
-      + apply IH; [exact Hd2|]. right. exists (XPanic m st). split; [reflexivity|exact I].
+        * destruct (ood_steps_shape _ m (cleanup_loop crun inner f last) (post (crun c s1))) as [A B].
+          rewrite A. rewrite B in H'. apply IH. destruct H' as [H|[H|H]]; [destruct (Hc H)|left; exact H|right; exact H].
+        * destruct (skip_steps_shape _ m (cleanup_loop crun inner f last) (post (crun c s1))) as [A B].
+          rewrite A. rewrite B in H'. apply IH. destruct H' as [H|[H|H]]; [destruct (Hc H)|left; exact H|right; exact H].
+      + apply IH. right. exists (XStop m st). split; [reflexivity|exact I].
+      + apply IH. right. exists (XPanic m st). split; [reflexivity|exact I].
       + exact I.
   Qed.
 
-  Lemma pan_cleanup inner s :
-    dirty (w (cleanup LF crun inner s)) = false ->
-    psig (tr (w (cleanup LF crun inner s))) -> cl_bad (res (cleanup LF crun inner s)).
+  Lemma pan_cleanup inner s : psig (tr (w (cleanup LF crun inner s))) -> cl_bad (res (cleanup LF crun inner s)).
   Proof.
-    unfold cleanup. intros Hd H.
-    rewrite (bind_ok_out _ _ begin_cleanup _ s tt eq_refl) in Hd, H |- *. cbn [res w] in Hd, H |- *.
-    apply dirty_wapp in Hd. destruct Hd as [_ Hd]. cbn [tr wapp] in H.
+    unfold cleanup. intros H.
+    pose proof (bind_shape _ _ begin_cleanup (fun _ => r <- cleanup_loop crun inner LF None ;; _ <- end_cleanup ;; ret r) s) as E.
+    cbn [begin_cleanup res] in E. destruct E as [E1 E2]. rewrite E1. rewrite E2 in H. clear E1 E2.
     apply psig_app in H. destruct H as [H|H].
     { exfalso. destruct H as (m0 & i0 & H). cbn [begin_cleanup w tr wev] in H. destruct (ctx (ts s)); in_disc H. }
-    set (s1 := post (begin_cleanup s)) in Hd, H |- *.
+    set (s1 := post (begin_cleanup s)) in H |- *.
+    pose proof (bind_shape _ _ (cleanup_loop crun inner LF None) (fun r => _ <- end_cleanup ;; ret r) s1) as E.
     pose proof (pan_cleanup_loop inner LF None s1) as L.
-    destruct (res (cleanup_loop crun inner LF None s1)) as [r|e] eqn:El.
-    - rewrite (bind_ok_out _ _ (cleanup_loop crun inner LF None) _ s1 r El) in Hd, H |- *. cbn [res w] in Hd, H |- *.
-      apply dirty_wapp in Hd. destruct Hd as [Hd _]. cbn [tr wapp] in H.
-      apply psig_app in H. destruct H as [H|H]; [|exfalso].
-      + specialize (L Hd (or_introl H)). unfold bind. cbn [end_cleanup ret res post]. exact L.
+    destruct (res (cleanup_loop crun inner LF None s1)) as [r|e]; destruct E as [E1 E2]; rewrite E1; rewrite E2 in H; clear E1 E2.
+    - apply psig_app in H. destruct H as [H|H]; [|exfalso].
+      + specialize (L (or_introl H)). unfold bind. cbn [end_cleanup ret res post]. exact L.
       + destruct H as (m0 & i0 & H). unfold bind in H. in_disc H.
-    - rewrite (bind_err_out _ _ (cleanup_loop crun inner LF None) _ s1 e El) in Hd, H |- *. cbn [res w] in Hd, H |- *.
-      apply L; [exact Hd|left; exact H].
+    - apply L. left. exact H.
   Qed.
 
   (* what follows T.cleanup: [k] rethrows what cleanup reports *)
@@ -443,33 +423,49 @@ Section PanInterp.
     (forall c, PAN (k c)) -> (forall e s, bad e -> bad_res (res (k (Some e) s))) ->
     PAN (bind (cleanup LF crun inner) k).
   Proof.
-    intros Hk Hb s Hd Hp. pose proof (bind_shape _ _ (cleanup LF crun inner) k s) as E.
-    apply bind_clean in Hd. destruct Hd as [Hd1 Hd2].
-    pose proof (pan_cleanup inner s Hd1) as C.
+    intros Hk Hb s Hp. pose proof (bind_shape _ _ (cleanup LF crun inner) k s) as E.
+    pose proof (pan_cleanup inner s) as C.
     destruct (res (cleanup LF crun inner s)) as [c|e]; destruct E as [E1 E2]; rewrite E1; rewrite E2 in Hp; clear E1 E2.
-    - apply psig_app in Hp. destruct Hp as [Hp|Hp]; [|apply Hk; [exact (Hd2 c eq_refl)|exact Hp]].
+    - apply psig_app in Hp. destruct Hp as [Hp|Hp]; [|apply Hk; exact Hp].
       specialize (C Hp). destruct c as [e|]; [apply Hb; exact C|destruct C].
     - exact (C Hp).
   Qed.
-  (* whatever T.cleanup reports is a failure or a panic, never a skip: always for the outermost T, and for the inner T
-     of a Custom generator function unless the run is flagged *)
-  Lemma cleanup_some inner s e :
-    inner = false \/ dirty (w (cleanup LF crun inner s)) = false ->
-    res (cleanup LF crun inner s) = Ok (Some e) -> bad e.
+  (* whatever T.cleanup reports is a failure or a panic, never a skip *)
+  Lemma cleanup_loop_some inner : forall fuel last s e,
+    (forall e0, last = Some e0 -> bad e0) -> res (cleanup_loop crun inner fuel last s) = Ok (Some e) -> bad e.
   Proof.
-    intros Hd H. destruct e as [m|m st|m st|]; try exact I.
-    apply cleanup_invalid in H. destruct H as (H1 & _ & H3). destruct Hd as [Hd|Hd]; congruence.
+    induction fuel as [|f IH]; intros last s e Hl; cbn [cleanup_loop]; [discriminate|].
+    unfold bind at 1. unfold pop_cleanup at 1 2 3.
+    destruct (cleanups (ts s)) as [|[id c] rest]; [|destruct (cleaning (ts s))]; cbn [res post ret].
+    - intros H. injection H as H. exact (Hl e H).
+    - unfold try_. cbn [res]. destruct (res (crun c _)) as [v|[m|m st|m st|]].
+      + apply IH. exact Hl.
+      + destruct (inner && internal_msg m).
+        * match goal with |- context [post (crun c ?s1)] =>
+            destruct (ood_steps_shape _ m (cleanup_loop crun inner f last) (post (crun c s1))) as [A _] end.
+          rewrite A. apply IH. exact Hl.
+        * match goal with |- context [post (crun c ?s1)] =>
+            destruct (skip_steps_shape _ m (cleanup_loop crun inner f last) (post (crun c s1))) as [A _] end.
+          rewrite A. apply IH. exact Hl.
+      + apply IH. intros e0 H. injection H as <-. exact I.
+      + apply IH. intros e0 H. injection H as <-. exact I.
+      + discriminate.
+    - intros H. injection H as H. exact (Hl e H).
+  Qed.
+  Lemma cleanup_some inner s e : res (cleanup LF crun inner s) = Ok (Some e) -> bad e.
+  Proof.
+    unfold cleanup. unfold bind at 1. cbn [begin_cleanup res post]. unfold bind at 1.
+    match goal with |- context [res (cleanup_loop crun inner LF None ?s0)] =>
+      pose proof (cleanup_loop_some inner LF None s0) as L; destruct (res (cleanup_loop crun inner LF None s0)) as [r|e0] end.
+    - unfold bind at 1. cbn [end_cleanup ret res post]. intros H. injection H as ->. apply (L e); [discriminate|reflexivity].
+    - discriminate.
   Qed.
   Lemma bad_after_cleanup inner B (k : option exn -> M B) s :
-    (forall c s0, (forall e, c = Some e -> bad e) -> bad_res (res (k c s0))) ->
-    inner = false \/ dirty (w (bind (cleanup LF crun inner) k s)) = false ->
-    bad_res (res (bind (cleanup LF crun inner) k s)).
+    (forall c s0, (forall e, c = Some e -> bad e) -> bad_res (res (k c s0))) -> bad_res (res (bind (cleanup LF crun inner) k s)).
   Proof.
-    intros Hb Hd. pose proof (bind_shape _ _ (cleanup LF crun inner) k s) as E.
-    assert (Hd' : inner = false \/ dirty (w (cleanup LF crun inner s)) = false).
-    { destruct Hd as [Hd|Hd]; [left; exact Hd|right]. apply bind_clean in Hd. exact (proj1 Hd). }
+    intros Hb. pose proof (bind_shape _ _ (cleanup LF crun inner) k s) as E.
     destruct (res (cleanup LF crun inner s)) as [c|e] eqn:Ec; destruct E as [E1 _]; rewrite E1.
-    - apply Hb. intros e ->. exact (cleanup_some inner s e Hd' Ec).
+    - apply Hb. intros e ->. exact (cleanup_some inner s e Ec).
     - apply (cleanup_err LF crun) in Ec. subst e. exact I.
   Qed.
 
@@ -491,30 +487,29 @@ Section PanInterp.
                  c <- cleanup LF crun true ;;
                  t0 <- get_ts ;;
                  match c, r with
-                 | Some (XInvalid m), _ => match failed t0 with Some _ => throw (XInvalid m) | None => ret None end
+                 | None, Ok v =>
+                     match ood t0 with
+                     | Some m => match failed t0 with Some _ => throw (XInvalid m) | None => ret None end
+                     | None => ret (Some v)
+                     end
                  | Some e, Err (XInvalid m) => _ <- (if internal_msg m then mark_dirty else ret tt) ;; throw e
                  | Some e, _ => throw e
-                 | None, Ok v => ret (Some v)
                  | None, Err (XInvalid m) => match failed t0 with Some _ => throw (XInvalid m) | None => ret None end
                  | None, Err e => throw e
                  end)).
     { apply pan_after_cleanup.
       - intros c. apply pan_bind; [apply pan_get_ts|intros t0].
-        destruct c as [[]|]; destruct r as [v|[]]; pa; try (destruct (failed t0); pa); try (destruct (internal_msg _); pa).
-      - intros e s He. unfold bind at 1. cbn [get_ts res post].
-        destruct e as [m'|m' st'|m' st'|]; try destruct He; destruct r as [v|[m|m st|m st|]]; try exact I;
-          unfold bind; destruct (internal_msg m); cbn; exact I. }
+        destruct c as [e|]; destruct r as [v|[m|m st|m st|]]; pa; try (destruct (internal_msg m); pa);
+          try (destruct (ood t0); pa); try (destruct (failed t0); pa).
+      - intros e s He. unfold bind at 1. cbn [get_ts res post]. destruct r as [v|[m|m st|m st|]]; try exact He.
+        unfold bind. destruct (internal_msg m); cbn; exact He. }
     destruct r as [v|[]]; try exact H. apply pan_throw.
   Qed.
-  (* a panic of the Custom function survives its handler - in a run that is not flagged *)
-  Lemma bad_custom_handler r s :
-    dirty (w (custom_handler LF crun r s)) = false -> bad_res r -> bad_res (res (custom_handler LF crun r s)).
+  Lemma bad_custom_handler r s : bad_res r -> bad_res (res (custom_handler LF crun r s)).
   Proof.
-    intros Hd Hr. unfold custom_handler in *. destruct r as [v|[m|m st|m st|]]; try destruct Hr; try exact I.
-    - apply bad_after_cleanup; [|right; exact Hd]. intros c s0 Hc. unfold bind at 1. cbn [get_ts res post].
-      destruct c as [e|]; [specialize (Hc e eq_refl); destruct e; try destruct Hc; exact I|exact I].
-    - apply bad_after_cleanup; [|right; exact Hd]. intros c s0 Hc. unfold bind at 1. cbn [get_ts res post].
-      destruct c as [e|]; [specialize (Hc e eq_refl); destruct e; try destruct Hc; exact I|exact I].
+    intros Hr. unfold custom_handler. destruct r as [v|[m|m st|m st|]]; try destruct Hr; try exact I.
+    - apply bad_after_cleanup. intros c s0 Hc. unfold bind at 1. cbn [get_ts res post]. destruct c; [exact (Hc _ eq_refl)|exact I].
+    - apply bad_after_cleanup. intros c s0 Hc. unfold bind at 1. cbn [get_ts res post]. destruct c; [exact (Hc _ eq_refl)|exact I].
   Qed.
 
   Lemma pan_custom_att (body : M val) : PAN body -> PAN (custom_att LF crun body).
@@ -531,10 +526,10 @@ Section PanInterp.
     intros Ha. unfold run_action. apply pan_try_w.
     - apply pan_try_w; [apply Ha| |].
       + intros r wa. apply pan_bind; [apply pan_emit_u; reflexivity|intros _]. destruct r; pa.
-      + intros r wa s0 _ Hr. destruct r as [v|e]; [destruct Hr|]. unfold bind. cbn. exact Hr.
+      + intros r wa s0 Hr. destruct r as [v|e]; [destruct Hr|]. unfold bind. cbn. exact Hr.
     - intros r wa. destruct r as [v|e]; [pa|]. destruct e; pa.
       destruct (failed a); pa. destruct (rd wa); pa. destruct (internal_msg m); pa.
-    - intros r wa s0 _ Hr. destruct r as [v|[m|m st|m st|]]; try destruct Hr; exact I.
+    - intros r wa s0 Hr. destruct r as [v|[m|m st|m st|]]; try destruct Hr; exact I.
   Qed.
   Lemma pan_exec_action id nacts (run_act : nat -> val -> M val) :
     (forall i s, PAN (run_act i s)) -> forall tries s, PAN (exec_action geom LF id nacts run_act tries s).
@@ -629,10 +624,10 @@ Qed.
 Lemma bad_check_handler geom LF lvl r s : bad_res r -> bad_res (res (check_handler geom LF lvl r s)).
 Proof.
   intros Hr. unfold check_handler. destruct r as [v|[m|m st|m st|]]; try destruct Hr; try exact I.
-  - unfold bind at 1. cbn [ret res post]. apply bad_after_cleanup; [|left; reflexivity]. intros c s0 Hc.
+  - unfold bind at 1. cbn [ret res post]. apply bad_after_cleanup. intros c s0 Hc.
     unfold bind. cbn [get_ts res post]. destruct c as [e|]; [specialize (Hc e eq_refl); destruct e; try destruct Hc|];
       destruct (failed (ts s0)); exact I.
-  - unfold bind at 1. cbn [ret res post]. apply bad_after_cleanup; [|left; reflexivity]. intros c s0 Hc.
+  - unfold bind at 1. cbn [ret res post]. apply bad_after_cleanup. intros c s0 Hc.
     unfold bind. cbn [get_ts res post]. destruct c as [e|]; [specialize (Hc e eq_refl); destruct e; try destruct Hc|];
       destruct (failed (ts s0)); exact I.
 Qed.
@@ -645,19 +640,14 @@ Proof.
   - intros; apply bad_check_handler; assumption.
 Qed.
 
-(* C02 at the level of one test case, for every kind of signal: panics included, for a panic under the proviso
-   that the run is not flagged (no cleanup function of a Custom's inner T ran out of data, which rejects the
-   attempt and loses the panic; counterexample otherwise:
-   PDraw (GCustom (PCleanup 0 (PDraw GBool _) (PFail KPanic 1 m _))) _ on the empty buffer ends with
-   Err (XInvalid MFindFailed)) *)
+(* C02 at the level of one test case, for every kind of signal: panics included *)
 Theorem signal_fails_case_any geom LF lvl p x k mm id :
   let o := checkOnce geom LF lvl p (start x) in
   In (USignal k mm id) (tr (w o)) ->
-  (k = KPanic -> dirty (w o) = false) ->
   ~ passes_or_invalid (res o).
 Proof.
-  cbv zeta. intros Hin Hd. destruct k; try (apply (signal_fails_case geom LF lvl p x _ mm id Hin); discriminate).
+  cbv zeta. intros Hin. destruct k; try (apply (signal_fails_case geom LF lvl p x _ mm id Hin); discriminate).
   intros Hp. assert (Hb : bad_res (res (checkOnce geom LF lvl p (start x)))).
-  { apply pan_checkOnce; [exact (Hd eq_refl)|]. exists mm, id. exact Hin. }
+  { apply pan_checkOnce. exists mm, id. exact Hin. }
   destruct Hp as [[u E]|[m0 E]]; rewrite E in Hb; exact Hb.
 Qed.
